@@ -1,5 +1,8 @@
 /-
   C07 — decode -> encode -> decode is a fixpoint over all machine words.  Per-CPU theorems (RV32I):
     rv32i_decode_encode_decode, table_rt_rows, table_fence_rows, branch_zero_alias_counterexample
+  MSP430 16-bit core (NakenVerif.Msp430.RoundTrip, DisSound): msp430_decode_encode_decode,
+  msp430_text_rejected_classes, arch_reading, table_no_shadow, table_core_rows, table_core_names, table_dis_kinds
 -/
 import NakenVerif.Riscv.RoundTrip
+import NakenVerif.Msp430.Fixpoint
